@@ -319,7 +319,9 @@ def c08ii (o : Obs) (ob : Obl) : Bool :=
 
 def c08iii (o : Obs) (ob : Obl) : Bool := o.fired == some ob.m
 
-/-- signature of known finding D6 (`absorbing_trigger` is one global slot): the violating press is of the
+/-- signature of former finding D6 (FIXED: `add_new_mapping` now runs `release_absorbed_keys` also when the firing
+mapping is absorbing without being key-producing; the monitor no longer consults this signature, the definition is
+kept for its other users) (`absorbing_trigger` is one global slot): the violating press is of the
 LATEST absorbing trigger — which exempts EVERY absorbed key — and either the obligation was created by
 a different trigger, or some other key that is still absorbed and held was absorbed by a different
 firing than the obligation's -/
@@ -345,23 +347,22 @@ def layoutH1 (L : Layout) : Bool := L.all fun m => isActionMapping m || m.to.all
 def layoutH2 (L : Layout) : Bool := L.all fun m => m.absorbing.isEmpty || isActionMapping m
 
 /-- C08 over one observed transition with the pending obligations; returns the violation tags.
-The known-finding signature D6 is only looked at for layouts outside H2: inside, C08 is a theorem of the
-model (`C08_partial'`), so any violation there is a new one.  (Since the fix of D7 the scope of the theorem
-is H2 alone, and the D7 signature is no longer consulted.) -/
+Since the fix of D6 (`add_new_mapping` lets go of the keys absorbed under another trigger also when the firing
+mapping is itself absorbing) C08 is a theorem of the model for EVERY layout (`C08_full`), so any violation is a new
+one: the known-finding signature `sigD6` is no longer consulted (nor is `layoutH2`); the tags are the plain clause
+names.  (Since the fix of D7 the D7 signature is not consulted either.) -/
 def monC08 (o : Obs) (obls : List Obl) : List String :=
   match o.e with
   | Event.released _ => []
   | Event.pressed k =>
     if !o.accepted then []
     else
-      let outside := !(layoutH2 o.L)
       (obls.filter fun ob => ob.M != k).flatMap fun ob =>
         if ob.t != k then
-          (if c08i o ob then [] else [if outside && sigD6 o ob then "C08:D6" else "C08:i"]) ++
-          (if c08ii o ob then [] else
-            [if outside && sigD6 o ob then "C08:D6" else "C08:ii"])
+          (if c08i o ob then [] else ["C08:i"]) ++
+          (if c08ii o ob then [] else ["C08:ii"])
         else if ob.fresh && sameSet o.P' ob.held then
-          (if c08iii o ob then [] else [if outside && sigD6 o ob then "C08:D6" else "C08:iii"])
+          (if c08iii o ob then [] else ["C08:iii"])
         else []
 
 /-- all step monitors; returns the ids of the violated ones -/
